@@ -10,6 +10,7 @@ import Proofs.C11Ops
 import Proofs.C11Iter
 import Proofs.C11Conc
 import Proofs.C11Rot
+import Proofs.C11Ident
 /-! # C11 — host selection offers each live node once, nearest and replicas first (property theorems)
 
 Model: `Model/Policies.lean` (cowHostList, roundRobbin, roundRobinHostPolicy / dcAwareRR / rackAwareRR,
@@ -1266,6 +1267,194 @@ theorem C11_reduced_shift_skewed :
     firstHits rotP.tier 1 seqs ⟨3, 3, 0, 1, []⟩ = 12 ∧
     (let l3 : List Host := [⟨1, 1, 0, 0, []⟩, ⟨2, 2, 0, 0, []⟩, ⟨3, 3, 0, 0, []⟩]
      rotVerdict (fun _ => 0) (fun _ => true) [l3] ((List.range 12).map (fun p => rrSeqReduced (fun _ => true) (p + 1) [l3])) = none) := by
+  decide
+
+/-! ## HOST IDENTITY in the policy host lists (seventh round; seeded change C11-9) — finding KF-C11-7
+
+What makes two `*HostInfo` objects "the same host" for a policy is what `cowHostList.add` and `cowHostList.remove`
+COMPARE. The unchanged code: `add` refuses a host that is `HostInfo.Equal` to an entry - the same object, or the same
+CONNECT ADDRESS (port, host id: not looked at); `remove(ip)` drops every entry with that connect address and then
+re-slices the result to `size-1` - it relies on "at most one entry per address". Both identities are the address, so
+that invariant holds in every reachable state, no nil entry can appear and no call panics (`C11_cow_no_nil_entry`,
+stated for ANY pair of identities in which `add` refuses whatever `remove` would conflate; `C11_cow_code_identity`:
+the unchanged code's pair, and the abstract lists every other theorem of this file is about are what the raw code
+computes). The seeded change C11-9 makes `Equal` compare the port too while `remove` still goes by address: the
+identities split, two entries with one address get in, `remove` of one drops both and exposes a nil slot, the next
+`add` panics (`C11_cex_split_identity_nil_slot`, kernel-checked on the raw list).
+
+The policies against the HISTORY with hosts that share an address: a round-robin based policy keeps one list per
+tier, so a host object's identity is its KEY (tier, address). For EVERY history over ANY host objects the lists hold
+exactly the object that stands for each key - the first one `AddHost` / `HostUp` put there since `RemoveHost` /
+`HostDown` of any object with the key last freed it (`Policies.ownerOf`) - and every such object whose state is up is
+offered (`C11_identity_lists_by_history`, no exclusion); without ghost keys (KF-C11-4) and with a replica head of
+listed objects the drained iterator offers EXACTLY the objects `Policies.expectedObj` names, each once
+(`C11_identity_history_exact_partial` - the specification answer of the op `offer` when two defined host objects
+share an address).
+
+FULL PROPERTY (nodes = host objects; "contains every up host the policy knows - so a query can always reach any
+live node"): every object that was added and not removed since, was not reported down last and is up, is offered.
+The unchanged code violates it for NODES THAT SHARE A CONNECT ADDRESS (different native ports behind one address:
+port mapping / NAT / local multi-node clusters; the session's ring keeps them apart by host id): the second node is
+refused by every list and never offered, and `HostDown` / `RemoveHost` of the refused node drops the FIRST one, which
+no call was about - finding KF-C11-7, counterexample `C11_cex_same_address_sibling`. What holds is the statement
+under `NoAlias` (`C11_history_complete`, `C11_history_exact_partial`) and the per-key statement above. -/
+
+/-- `cowHostList.add` / `remove` AS THE GO CODE HAS THEM (entries may be nil, `remove` re-slices to `size-1`, a nil
+entry dereferenced is a panic), for ANY two identities - `sameAdd` compared by `add`, `keyOf` by `remove` - such that
+`add` refuses whatever `remove` would conflate: after EVERY history of calls no call has panicked, the list has NO
+NIL ENTRY and no two entries with one key. -/
+theorem C11_cow_no_nil_entry {α κ : Type} [BEq κ] [LawfulBEq κ] (sameAdd : α → α → Bool) (keyOf : α → κ)
+    (href : ∀ a b, keyOf a = keyOf b → sameAdd a b = true) (ops : List (RawOp α κ)) :
+    ∃ l : List α, rawRun sameAdd keyOf (some []) ops = some (l.map some) ∧ KeyNodup keyOf l :=
+  rawRun_ok sameAdd keyOf href ops [] List.Pairwise.nil
+
+/-- `remove(ip)` on a list with the invariant removes EXACTLY the entries identical to `ip` under the list's identity
+(at most one), leaves no nil entry and keeps the order of the others. -/
+theorem C11_cow_remove_exact {α κ : Type} [BEq κ] [LawfulBEq κ] (keyOf : α → κ) (l : List α) (hl : KeyNodup keyOf l) (ip : κ) :
+    (∃ c, rawRemove keyOf (l.map some) ip = some ((l.filter (fun x => !(keyOf x == ip))).map some, c)) ∧
+    l.length ≤ (l.filter (fun x => !(keyOf x == ip))).length + 1 ∧
+    (∀ x, x ∈ l.filter (fun x => !(keyOf x == ip)) ↔ x ∈ l ∧ keyOf x ≠ ip) := by
+  obtain ⟨c, e, _⟩ := rawRemove_ok keyOf l hl ip
+  refine ⟨⟨c, e⟩, filter_key_length keyOf l hl ip, ?_⟩
+  intro x
+  simp [List.mem_filter]
+
+/-- The UNCHANGED code's identities (`HostInfo.Equal` = same object or same connect address; `remove` by connect
+address): for every history of `add` / `remove` calls the raw list - nil entries and panics modelled - is the abstract
+list `cowAdd` / `cowRemove` compute (the lists all other theorems here are about), without a nil entry, and no two
+entries share an address. -/
+theorem C11_cow_code_identity (ops : List (RawOp Host Nat)) :
+    rawRun Host.equal (fun h : Host => h.addr) (some []) ops = some ((ops.foldl absStep []).map some) ∧
+    AddrNodup (ops.foldl absStep []) :=
+  ⟨rawRun_abs ops [] List.Pairwise.nil, absRun_inv ops [] List.Pairwise.nil⟩
+
+example : rawRun Host.equal (fun h : Host => h.addr) (some [])
+    [.add ⟨1, 10, 0, 0, []⟩, .add ⟨2, 10, 0, 0, []⟩, .add ⟨3, 11, 0, 0, []⟩, .remove 10, .add ⟨2, 10, 0, 0, []⟩] =
+    some [some ⟨3, 11, 0, 0, []⟩, some ⟨2, 10, 0, 0, []⟩] := by decide
+
+/-- REGRESSION, the seeded variant C11-9 (kernel-checked on the raw list): a node is (address, port); `Equal`
+compares both, `remove` compares the address. Two nodes behind address 10 are both admitted; `remove(10)` - one of
+them goes down - drops BOTH and leaves a nil slot; the next `add` into the list panics. -/
+theorem C11_cex_split_identity_nil_slot :
+    let run := rawRun seededSame (fun n : Nat × Nat => n.1) (some [])
+    run [.add (10, 9042), .add (10, 9043), .add (11, 9042)] = some [some (10, 9042), some (10, 9043), some (11, 9042)] ∧
+    run [.add (10, 9042), .add (10, 9043), .add (11, 9042), .remove 10] = some [some (11, 9042), none] ∧
+    run [.add (10, 9042), .add (10, 9043), .add (11, 9042), .remove 10, .add (10, 9042)] = none := by
+  decide
+
+/-- For EVERY operation history over ANY host objects (objects sharing a connect address included), every policy
+kind, bare or as token-aware fallback: the lists hold exactly the object that stands for each key (tier, address) by
+the history; no two listed objects share a key; the drained iterator offers only up hosts and EVERY listed object
+whose state is up (no exclusion: "every up host of the tier is offered"). -/
+theorem C11_identity_lists_by_history (k : Kind) (ldc lrack : Nat) (sh nl ps : Bool) (sess : Option Nat) (ops : List TAOp)
+    (up : Nat → Bool) (σ : List Host → List Host) (rk : Option (Nat × Nat)) :
+    let t := ops.foldl TA.apply (TA.new (Pol.new k ldc lrack) sh nl ps sess)
+    let key := (Pol.new k ldc lrack).key
+    (∀ x, known t.pol x ↔ ownerOf key (evsOf ops) (key x) = some x) ∧
+    (∀ a b, known t.pol a → known t.pol b → key a = key b → a = b) ∧
+    ∃ l, t.pickSeq up σ rk = .seq l ∧ (Pol.below t.pol → t.pickScan up σ rk = ⟨l, false⟩) ∧
+      (∀ h ∈ l, up h.id = true) ∧
+      ∀ x, ownerOf key (evsOf ops) (key x) = some x → up x.id = true → x ∈ l := by
+  intro t key
+  obtain ⟨hp, _, hkn⟩ := owner_final k ldc lrack sh nl ps sess ops
+  refine ⟨hkn, ?_, ?_⟩
+  · intro a b ha hb e
+    have h1 := (hkn a).mp ha
+    have h2 := (hkn b).mp hb
+    have e' : (Pol.new k ldc lrack).key a = (Pol.new k ldc lrack).key b := e
+    rw [e', h2] at h1
+    exact (Option.some.inj h1).symm
+  · obtain ⟨l, hl, hc, hm⟩ := pickSeq_struct t hp up σ rk
+    exact ⟨l, hl, fun hb => pickScan_ideal t up σ rk hb l hl, fun h hh => (hm h hh).1,
+      fun x hx hu => hc x ((hkn x).mpr hx) hu⟩
+
+/-- EXACTNESS per key (partial - the section comment has the full property): under the hypotheses of
+`C11_tokenaware_all_states_partial`, for every history over ANY host objects: if no key is a ghost (`HostUp` of an
+object whose key is not known, KF-C11-4) and every host of the specified replica head is the listed object of its
+key, the drained iterator offers EXACTLY the objects `expectedObj` names - the object standing for a key that is
+known, was not reported down last, state up - each once. -/
+theorem C11_identity_history_exact_partial (k : Kind) (ldc lrack : Nat) (sh nl ps : Bool) (sess : Option Nat) (ops : List TAOp)
+    (up : Nat → Bool) (σ : List Host → List Host) (hσ : ∀ l, (σ l).Perm l) (rk : Option (Nat × Nat)) :
+    let t := ops.foldl TA.apply (TA.new (Pol.new k ldc lrack) sh nl ps sess)
+    let key := (Pol.new k ldc lrack).key
+    (∀ e ∈ t.replicas, ∀ f ∈ e.2, f.2.Nodup) →
+    (∀ x, (keyStatus key (evsOf ops) (key x)).ghost = false) →
+    (∀ x ∈ specHead t.pol.tier t.pol.maxTier up nl ((repsOf t σ rk).getD []), ownerOf key (evsOf ops) (key x) = some x) →
+    ∃ l, t.pickSeq up σ rk = .seq l ∧ (Pol.below t.pol → t.pickScan up σ rk = ⟨l, false⟩) ∧ l.Nodup ∧
+      ∀ x, x ∈ l ↔ expectedObj key (evsOf ops) up x = true := by
+  intro t key hrep hg hhead
+  obtain ⟨hp, _, hkn⟩ := owner_final k ldc lrack sh nl ps sess ops
+  obtain ⟨l, hl, hscan, hnd, hup, hcomp, rest, hrest, hsub, _⟩ :=
+    C11_tokenaware_all_states_partial k ldc lrack sh nl ps sess ops up σ hσ rk hrep
+  refine ⟨l, hl, hscan, hnd, ?_⟩
+  intro x
+  have hwf : (keyStatus key (evsOf ops) (key x)).wf := wf_keyStatusFrom key _ wf_init (evsOf ops) (key x)
+  constructor
+  · intro hx
+    have hu := hup x hx
+    have ho : ownerOf key (evsOf ops) (key x) = some x := by
+      rw [hrest, List.mem_append] at hx
+      rcases hx with hx | hx
+      · exact hhead x hx
+      · exact (hkn x).mp ((mem_pickSeq _ hp up x).mp (hsub.subset hx)).1
+    have hin : (keyStatus key (evsOf ops) (key x)).inList = true := by
+      have := owner_isSome_inList key (evsOf ops) (key x) none Status.init (by simp [Status.init, Status.inList])
+      rw [← ownerOf_eq, ← keyStatus_eq, ho] at this
+      exact this.symm
+    have he := inList_expected _ hwf (hg x) hin
+    unfold expectedObj
+    rw [ho, hu]
+    simp [he]
+  · intro hx
+    unfold expectedObj at hx
+    simp only [Bool.and_eq_true, beq_iff_eq] at hx
+    obtain ⟨ho, he⟩ := hx
+    exact hcomp x ((hkn x).mpr ho) (expected_inList _ hwf _ he).2
+
+/-- The token-aware policy's OWN list (`t.hosts`: the hosts of the token ring and of every replica table it computes),
+for EVERY operation history over ANY host objects: no two entries share an address, and the list holds exactly the
+object that stands for each address by the history - the first one `AddHost` put there since `RemoveHost` of any object
+with that address last freed it (`taOwnerOf`; `HostUp` / `HostDown` do not touch it). -/
+theorem C11_identity_ta_hosts_by_history (k : Kind) (ldc lrack : Nat) (sh nl ps : Bool) (sess : Option Nat) (ops : List TAOp) :
+    let t := ops.foldl TA.apply (TA.new (Pol.new k ldc lrack) sh nl ps sess)
+    AddrNodup t.hosts ∧ ∀ x, x ∈ t.hosts ↔ taOwnerOf (evsOf ops) x.addr = some x := by
+  intro t
+  exact taOwner_run ops (TA.new (Pol.new k ldc lrack) sh nl ps sess) (fun _ => none)
+    (by simp [TA.new, AddrNodup]) (fun _ _ h => by cases h) (fun x => by simp [TA.new])
+
+example :
+    let ops := [TAOp.add ⟨1, 10, 0, 0, [100]⟩, .add ⟨2, 10, 1, 0, [200]⟩, .add ⟨3, 11, 0, 0, [300]⟩, .remove ⟨2, 10, 1, 0, [200]⟩]
+    let t := ops.foldl TA.apply (TA.new (Pol.new .dc 0 0) false true true)
+    -- the sibling in the other tier (object 2, remote DC) shares address 10: the own list refused it, its RemoveHost
+    -- takes object 1 out of the own list (and out of the ring), while the fallback's LOCAL list still holds object 1
+    t.hosts = [⟨3, 11, 0, 0, [300]⟩] ∧ t.pol.l0 = [⟨1, 10, 0, 0, [100]⟩, ⟨3, 11, 0, 0, [300]⟩] ∧ t.pol.l1 = [] ∧
+    taOwnerOf (evsOf ops) 10 = none := by
+  decide
+
+def cexN1 : Host := ⟨1, 10, 0, 0, []⟩   -- node 1, address 10 (port 9042)
+def cexN2 : Host := ⟨2, 10, 0, 0, []⟩   -- node 2, the SAME address (port 9043)
+def cexN3 : Host := ⟨3, 11, 0, 0, []⟩   -- node 3, its own address
+
+/-- non-vacuity of the per-key theorems on that cluster: after AddHost 1, 2, 3 the objects 1 and 3 stand for their keys
+and are expected; object 2 does not stand for a key -/
+example :
+    let evs := evsOf [TAOp.add cexN1, .add cexN2, .add cexN3]
+    let key := (Pol.new .rr 0 0).key
+    expectedObj key evs (fun _ => true) cexN1 = true ∧ expectedObj key evs (fun _ => true) cexN2 = false ∧
+    expectedObj key evs (fun _ => true) cexN3 = true ∧ (keyStatus key evs (key cexN2)).ghost = false := by
+  decide
+
+/-- COUNTEREXAMPLE to the full property, finding KF-C11-7 (kernel-checked): two nodes behind one connect address.
+After AddHost of nodes 1, 2, 3 node 2 is known and up by the history, but no pick offers it (the list refused it);
+after HostDown(2) - node 2 goes down - node 1, which no call reported down, is not offered any more. -/
+theorem C11_cex_same_address_sibling :
+    let t0 := TA.new (Pol.new .rr 0 0) false false false
+    let ops1 := [TAOp.add cexN1, .add cexN2, .add cexN3]
+    let ops2 := ops1 ++ [.hostDown cexN2]
+    (statusOf (evsOf ops1) cexN2).expected true = true ∧
+    (ops1.foldl TA.apply t0).pickSeq (fun _ => true) id none = .seq [cexN1, cexN3] ∧
+    (statusOf (evsOf ops2) cexN1).expected true = true ∧
+    (ops2.foldl TA.apply t0).pickSeq (fun _ => true) id none = .seq [cexN3] := by
   decide
 
 end C11
